@@ -218,6 +218,49 @@ impl Check for C11 {
                 }
             }
         }
+        // ---- real file system once more, with the first match of a glob directory turned into a
+        // symbolic link whose target lives elsewhere (and sorts last): matches are visited in the
+        // order of the names that matched, not of what they point to
+        if !violated && nomatch.is_none() && rng.chance(1, 3) {
+            let mut by_dir: std::collections::BTreeMap<String, Vec<String>> = std::collections::BTreeMap::new();
+            for (p, c) in tree.files.iter() {
+                let d = p.rsplit_once('/').map(|x| x.0.to_string()).unwrap_or_default();
+                let leaf_dir = d.rsplit('/').next().unwrap_or("");
+                let in_glob_dir = (leaf_dir.starts_with('g') || leaf_dir.starts_with("20")) && leaf_dir.len() >= 3;
+                let name = p.rsplit('/').next().unwrap_or("");
+                if in_glob_dir && !c.contains("include ") && c != crate::gen::splitter::DECOY_TEXT && !name.starts_with('.') && name.ends_with(".ledger") && tree.placement.iter().any(|x| x == p) {
+                    by_dir.entry(d).or_default().push(p.clone());
+                }
+            }
+            let candidate = by_dir.values().filter(|v| v.len() >= 2).map(|v| v.iter().min().unwrap().clone()).next();
+            if let Some(link) = candidate {
+                let link_path = dir.join(&link);
+                let target_dir = dir.join("zzz-links");
+                let target = target_dir.join("moved.ledger");
+                let moved = std::fs::create_dir_all(&target_dir).is_ok() && std::fs::rename(&link_path, &target).is_ok() && std::os::unix::fs::symlink(&target, &link_path).is_ok();
+                if moved {
+                    rec.op("Loader::load (real fs, symlinked glob match)", &joined);
+                    if let Some(seq) = guarded(rec, || collect(ops::real_loader(&real_root))) {
+                        match seq {
+                            Err(e) => {
+                                rec.violation("split-ledger-fails-to-load", &format!("real-fs-symlink|{}", feats), &format!("loading failed once a glob match is a symbolic link: {}", e.lines().next().unwrap_or("")), wit(json!({"error": e, "link": link})));
+                                violated = true;
+                            }
+                            Ok(seq) => {
+                                let texts: Vec<String> = seq.iter().map(|x| norm(&x.1)).collect();
+                                let want: Vec<String> = entries.iter().map(|e| norm(e)).collect();
+                                if texts != want {
+                                    rec.violation("delivery-order-differs", &format!("real-fs-symlink|{}", feats), "with a glob match that is a symbolic link the entries are delivered in another order", wit(json!({"link": link})));
+                                    violated = true;
+                                } else {
+                                    rec.count("real-fs-symlink:sequence-agrees");
+                                }
+                            }
+                        }
+                    }
+                }
+            }
+        }
         // ---- reports of the split tree equal those of the unsplit ledger
         if !violated && nomatch.is_none() {
             let single = vec![(format!("{}/whole.ledger", BASE), whole.clone())];
